@@ -175,6 +175,26 @@ def ref_wait_exact(w, k: int) -> float | None:
     return None
 
 
+def ref_wait_range(w, k: int):
+    """(lo, hi) of the documented delay before the k-th retry for strategies whose randomness is a plain bounded term; None for
+    the jittered exponential families"""
+    t = w[0]
+    if t in ("fixed", "none", "exp", "inc"):
+        x = ref_wait_lower_bound(w, k)
+        return (x, x)
+    if t == "random":
+        return (float(w[1]), float(w[2]))
+    if t == "chain":
+        lst = w[1]
+        return ref_wait_range(lst[min(k, len(lst)) - 1], k)
+    if t == "combine":
+        parts = [ref_wait_range(x, k) for x in w[1]]
+        if any(p is None for p in parts):
+            return None
+        return (sum(p[0] for p in parts), sum(p[1] for p in parts))
+    return None
+
+
 def ref_stop(s, attempts: int, elapsed: float, upcoming: float | None) -> bool | None:
     """Should the policy stop after `attempts` executions, `elapsed` seconds after
     the first attempt started?  None = undecidable here (boundary / unknown sleep)."""
